@@ -255,9 +255,50 @@ namespace c9
         const auto shape = nm::shape(a);
         auto sv = vh::to_vec(shape);
         long long label = base;
+        constexpr auto fd = meta::fixed_dim_v<A>;
         for (vh::Odo o(sv); !o.end; o.next()) {
-            nm::apply_at(a, o.idx) = (elem_t)label;
+            if constexpr (!meta::is_fail_v<decltype(fd)>) {
+                // raw / nested / fixed / hybrid arrays only take an index of fixed length
+                nmtools_array<nm_size_t, (nm_size_t)fd> idx{};
+                for (nm_size_t i = 0; i < (nm_size_t)fd; i++) idx[i] = o.idx[i];
+                nm::apply_at(a, idx) = (elem_t)label;
+            } else {
+                nm::apply_at(a, o.idx) = (elem_t)label;
+            }
             label++;
+        }
+    }
+    // same format as vh::emit_array; elements are read with an index of FIXED length whenever the type has a fixed
+    // dimension (raw / nested / fixed / hybrid arrays and views over them do not take a dynamic index)
+    template <typename array_t>
+    void emit_arr(Out& out, const array_t& a)
+    {
+        if constexpr (meta::is_maybe_v<array_t>) {
+            if (!nm::has_value(a)) { out.tok("N"); return; }
+            emit_arr(out, nm::unwrap(a));
+        } else if constexpr (meta::is_num_v<array_t>) {
+            vh::emit_array(out, a);
+        } else {
+            using elem_t = meta::get_element_type_t<array_t>;
+            const auto shape = nm::shape(a);
+            auto sv = vh::to_vec(shape);
+            out.tok("A");
+            out.tok(vh::type_tag<elem_t>());
+            out.vec(sv);
+            auto n = vh::prod(sv);
+            if (n > vh::MAX_EMIT || n < 0) { out.i(-1); return; }
+            out.i(n);
+            if (sv.size() == 0) return;
+            constexpr auto fd = meta::fixed_dim_v<array_t>;
+            for (vh::Odo o(sv); !o.end; o.next()) {
+                if constexpr (!meta::is_fail_v<decltype(fd)>) {
+                    nmtools_array<nm_size_t, (nm_size_t)fd> idx{};
+                    for (nm_size_t i = 0; i < (nm_size_t)fd && i < sv.size(); i++) idx[i] = o.idx[i];
+                    out.num(static_cast<elem_t>(nm::apply_at(a, idx)));
+                } else {
+                    out.num(static_cast<elem_t>(nm::apply_at(a, o.idx)));
+                }
+            }
         }
     }
 } // namespace c9
